@@ -102,7 +102,8 @@ Proof.
   all: t_some_rb s; t_negok s T I'; t_Dn s; t_Dd s.
   all: try discriminate; try lia.
   (* told ok: the primary is committed *)
-  match goal with Hx : negb (cn _ FPcOk =? 0) || _ || _ = true |- _ => rename Hx into CR end.
+  match goal with Hx : negb (cn _ FPcOk =? 0) || _ || _ || _ = true |- _ => rename Hx into CR end.
+    apply orb_true_iff in CR. destruct CR as [CR | CD]; [| exfalso; b2p; unf2; congruence].
     apply orb_true_iff in CR. destruct CR as [CR | CR]; [apply orb_true_iff in CR; destruct CR as [CR | CR] |]; b2p.
   - eexists. apply t_pcok. auto.
   - exfalso. destruct Hc as [_ [B _]]. unf2. apply g_1pcts in CR. congruence.
